@@ -17,7 +17,7 @@ fn h_kernel_scalar<S: Src>(s: &mut S) {
     s.assume(st >= 1 && st <= 12);
     let e = annex_j(a, b, c, d, st);
     process(&mut a, &mut b, &mut c, &mut d, st);
-    s.chk((a, b, c, d) == e, "deblock.process.post: result == annex_j(A,B,C,D,strength)");
+    chk!(s, (a, b, c, d) == e, "deblock.process.post: result == annex_j(A,B,C,D,strength)");
     s.reach();
 }
 
@@ -33,7 +33,7 @@ fn h_kernel_simd<S: Src>(s: &mut S) {
     let mut i = 0;
     while i < 8 {
         let e = annex_j(a0[i], b0[i], c0[i], d0[i], st);
-        s.chk((a[i], b[i], c[i], d[i]) == e, "deblock.process_simd.post: every lane == annex_j(A,B,C,D,strength)");
+        chk!(s, (a[i], b[i], c[i], d[i]) == e, "deblock.process_simd.post: every lane == annex_j(A,B,C,D,strength)");
         i += 1;
     }
     s.reach();
@@ -51,7 +51,7 @@ fn h_kernel_simd_lane<S: Src, const L: usize>(s: &mut S) {
     let (a0, b0, c0, d0) = (a, b, c, d);
     process_simd(&mut a, &mut b, &mut c, &mut d, st);
     let e = annex_j(a0[L], b0[L], c0[L], d0[L], st);
-    s.chk((a[L], b[L], c[L], d[L]) == e, "deblock.process_simd.post: every lane == annex_j(A,B,C,D,strength)");
+    chk!(s, (a[L], b[L], c[L], d[L]) == e, "deblock.process_simd.post: every lane == annex_j(A,B,C,D,strength)");
     s.reach();
 }
 
@@ -90,7 +90,7 @@ fn geom_core<S: Src>(s: &mut S, data: &[u8], want: &mut [u8], w: usize, k: fn(u8
     s.assume(st >= 1 && st <= 12);
     let n = data.len();
     let out = deblock(data, w, st);
-    s.chk(out.len() == n, "deblock.deblock.post_len: output length == input length");
+    chk!(s, out.len() == n, "deblock.deblock.post_len: output length == input length");
     deblock_geometry(want, w, st, k);
     let mut i = 0;
     let mut all = true;
@@ -100,7 +100,7 @@ fn geom_core<S: Src>(s: &mut S, data: &[u8], want: &mut [u8], w: usize, k: fn(u8
         }
         i += 1;
     }
-    s.chk(all, "deblock.deblock.post_geometry: every output byte == vertical_pass(horizontal_pass(input)) per Annex J geometry");
+    chk!(s, all, "deblock.deblock.post_geometry: every output byte == vertical_pass(horizontal_pass(input)) per Annex J geometry");
     s.reach();
 }
 fn h_geom<S: Src, const W: usize, const H: usize, const N: usize>(s: &mut S, k: fn(u8, u8, u8, u8, u8) -> (u8, u8, u8, u8)) {
@@ -126,7 +126,7 @@ fn h_table_j2<S: Src>(s: &mut S) {
         }
         i += 1;
     }
-    s.chk(ok, "deblock.QUANT_TO_STRENGTH.table_j2: entries 1..=31 == Table J.2/H.263");
+    chk!(s, ok, "deblock.QUANT_TO_STRENGTH.table_j2: entries 1..=31 == Table J.2/H.263");
     s.reach();
 }
 
